@@ -100,7 +100,11 @@ Print Assumptions C25_examples.
     the metacharacter class, the separators, the order of the checks, that
     the counter's check-and-increment and its decrement are each one critical
     section and the only writers of the counter, and that every function that
-    creates a process starts with validateAndAcquire. *)
+    creates a process starts with validateAndAcquire, that every error return
+    after the acquire follows exactly one ReleaseSession (and no deferred
+    release exists beside them), and that the agent wires every field of
+    shell.Config from the same-named field of the configuration's shell
+    section. *)
 Theorem C25_source_facts :
   gen_dangerous_is_literal_class = true /\
   gen_dangerous_chars = dangerous_chars /\
@@ -117,6 +121,12 @@ Theorem C25_source_facts :
   gen_handler_release_sites = [("Handler.handleMetadata", 1); ("Handler.releaseSession", 2)]%string /\
   gen_release_guarded_by_released_flag = true /\
   gen_start_failure_releases_before_session_recorded = true /\
+  gen_shell_config_literals = 1 /\
+  forallb (fun '(field, expr) => String.eqb expr ("a.cfg.Shell." ++ field)) gen_shell_config_wiring = true /\
+  map fst gen_shell_config_wiring = ["Enabled"; "Whitelist"; "PasswordHash"; "Timeout"; "MaxSessions"]%string /\
+  forallb (fun '(_, returns, with_one_release, deferred) => N.eqb returns with_one_release && N.eqb deferred 0)
+          gen_error_paths_after_acquire = true /\
+  map (fun '(fn, _, _, _) => fn) gen_error_paths_after_acquire = ["Executor.NewPTYSession"; "Executor.NewSession"]%string /\
   forallb snd gen_process_creation_sites = true /\
   map fst gen_process_creation_sites = ["Executor.NewPTYSession"; "Executor.NewSession"]%string.
 Proof. repeat split; vm_compute; reflexivity. Qed.
